@@ -114,6 +114,20 @@ fn compute_non_local_scalars(cfg: &il::ControlFlowGraph) -> HashSet<il::Scalar> 
                     killed.insert(scalar);
                 });
         });
+
+        // The conditions of the outgoing edges are evaluated after the last
+        // instruction of the block: they read every scalar the block did not define.
+        if let Ok(edges_out) = cfg.edges_out(block.index()) {
+            for edge in edges_out {
+                if let Some(condition) = edge.condition() {
+                    for scalar in condition.scalars() {
+                        if !killed.contains(&scalar) {
+                            non_locals.insert(scalar.clone());
+                        }
+                    }
+                }
+            }
+        }
     }
 
     non_locals
